@@ -540,10 +540,20 @@ func ruleCapsAndTimeouts(w *World, r *Run, ruleE, ruleF string) {
 				h := bf(opts, "Handler")
 				good := h != nil && h.Kind == "call" && h.Name == "net/http.MaxBytesHandler" && h.Args[2] == handler
 				if good {
-					c, okc := constVal(h.Args[3])
-					good = okc && c.Sign() > 0 && c.Cmp(big.NewInt(16384)) <= 0
+					// the cap: a positive constant, or configuration (nothing in it comes from a call or from the peer)
+					if c, okc := constVal(h.Args[3]); okc {
+						good = c.Sign() > 0 && c.Cmp(big.NewInt(1<<20)) <= 0
+					} else {
+						good = !anySub(h.Args[3], func(x *Term) bool {
+							switch x.Kind {
+							case "call", "out", "recvval", "lookup", "rangeelem", "rangekey":
+								return true
+							}
+							return false
+						})
+					}
 				}
-				r.Check(good, ruleE, fnConnect+" | requests capped at 16 KiB", w.pos(sc.Pos), "the handler served on the bastion connection is not http.MaxBytesHandler(handler, c) with a constant c <= 16384")
+				r.Check(good, ruleE, fnConnect+" | requests capped at 16 KiB", w.pos(sc.Pos), "the handler served on the bastion connection is not http.MaxBytesHandler(handler, c) with c a positive constant (at most 1 MiB) or a configured limit")
 				// timeouts on the HTTP/2 server and its base config
 				srv := sc.Recv
 				for _, f := range []string{"IdleTimeout", "ReadIdleTimeout", "PingTimeout"} {
